@@ -94,6 +94,12 @@ def templates():
     add("NablaGrad", C.NablaGrad, [S("a", (2,))], lambda o: C.NablaGrad(o[0]), needs_dom=True)
     add("NablaDiv", C.NablaDiv, [S("a", (2, 2))], lambda o: C.NablaDiv(o[0]), needs_dom=True)
     add("Curl", C.Curl, [S("a", (2,))], lambda o: C.Curl(o[0]), needs_dom=True)
+    # operand shapes that differ from the geometric dimension (the derivative axis can be told from the value axes)
+    add("Grad[vec3]", C.Grad, [S("a", (3,))], lambda o: C.Grad(o[0]), needs_dom=True)
+    add("NablaGrad[vec3]", C.NablaGrad, [S("a", (3,))], lambda o: C.NablaGrad(o[0]), needs_dom=True)
+    add("NablaGrad[mat3x2]", C.NablaGrad, [S("a", (3, 2))], lambda o: C.NablaGrad(o[0]), needs_dom=True)
+    add("Div[mat3x2]", C.Div, [S("a", (3, 2))], lambda o: C.Div(o[0]), needs_dom=True)
+    add("NablaDiv[mat2x3]", C.NablaDiv, [S("a", (2, 3))], lambda o: C.NablaDiv(o[0]), needs_dom=True)
     # compound tensor algebra
     add("Transposed", C.Transposed, [S("A", (2, 3))], lambda o: C.Transposed(o[0]))
     add("Outer", C.Outer, [S("a", (2,)), S("b", (3,))], lambda o: C.Outer(o[0], o[1]))
